@@ -203,6 +203,10 @@ def detect_strategy():
             "stub": st.one_of(
                 st.binary(max_size=80).map(ff_free),
                 st.binary(min_size=900, max_size=1000).map(ff_free),
+                # the last offsets of the 1024-byte search range (a stage located through its size field only must still
+                # be found with a stub of 1023 bytes; with the marker the nonce then lies beyond the range)
+                st.integers(1001, 1023).flatmap(lambda n: st.binary(min_size=n, max_size=n)).map(ff_free),
+                st.sampled_from([1016, 1017, 1020, 1021, 1023]).map(lambda n: b"\x90" * n),
                 st.binary(max_size=1000).map(ff_free),
                 # decoy marker early in a long stub: that candidate does not validate when the image is pushed out of range
                 st.tuples(st.binary(max_size=40), st.integers(700, 950)).map(lambda t: ff_free(t[0]) + b"\xff\xff\xff" + b"\xcc" * t[1]),
